@@ -125,7 +125,7 @@ T_SAnswer ==
 \* the recorder's own RFC 8945 responder
 T_RfcAnswer ==
   /\ IsEv("rfc_answer")
-  /\ LET r == RfcSignStep(k.s, rfc, MkMsg(Ev.pre), Ev.now, Ev.fudge, macs, Ev.full)
+  /\ LET r == RfcSignStepE(k.s, rfc, MkMsg(Ev.pre), Ev.now, Ev.fudge, Ev.err, Ev.other, macs, Ev.full)
      IN Signed(r) /\ macs' = r.tbl /\ rfc' = r.rs /\ fl' = r.msg
   /\ pre' = Ev.pre
   /\ UNCHANGED <<k, cli, srv, g>>
